@@ -213,7 +213,8 @@ def run(ctx):
         "scipy.stats.gaussian_kde and norm.ppf (external; ppf assumed strictly increasing on (0,1))",
         "density profile in [0,1] with min 0 and max 1 on the implementation (theorem is about the normalisation step)",
     ]
-    proved = cm.prove(ctx)
+    # Props/PyTieScores.vo: ppos / compute_percentiles as TRANSLATED from the source = the model
+    proved = cm.prove(ctx, extractors=["c20", "pygen"], extra_targets=["Props/PyTieScores.vo"])
     cm.use_impl()
     import pandas as pd
     from hydrodiy.stat import sutils
